@@ -439,3 +439,25 @@ Definition scatter_all (st : pystate) (comp : pystr) (bands : list subband) (sli
      fold_left (fun bs sxvals => scatter_component st comp bs (fst sxvals) (fst syrow) (snd sxvals))
                (enumerate (snd syrow)) bs)
     (enumerate slices) bands.
+
+(* the decoder's color_diff_slice_band reads C1 and C2 values alternately *)
+Fixpoint deinterleave (l : list Z) : list Z * list Z :=
+  match l with
+  | a :: b :: r => let '(x, y) := deinterleave r in (a :: x, b :: y)
+  | _ => ([], [])
+  end.
+
+(* initialize_wavelet_data (13.2.2): one array of subband_height x subband_width per subband;
+   `shape` lists (level, quantisation matrix entry) of the subbands in bitstream order *)
+Definition zero_band (h w : nat) : band := repeat (repeat 0 w) h.
+Definition init_bands (st : pystate) (comp : pystr) (shape : list (Z * Z)) : list subband :=
+  map (fun lq => (fst lq, snd lq,
+                  zero_band (Z.to_nat (subband_height st (fst lq) comp)) (Z.to_nat (subband_width st (fst lq) comp))))
+      shape.
+
+(* transform_data (13.5.2) for one component: all slices, then DC prediction of the first
+   subband when the profile uses it *)
+Definition decode_component (st : pystate) (comp : pystr) (shape : list (Z * Z)) (dc : bool)
+           (slices : list (list (list Z))) : list band :=
+  let bands := map sb_band (scatter_all st comp (init_bands st comp shape) slices) in
+  if dc then match bands with b :: r => dc_prediction b :: r | [] => [] end else bands.
